@@ -79,6 +79,8 @@ pub fn fork_reduce_ex<A>(n: usize, init: impl Fn(usize) -> A, step: impl Fn(&mut
             let pid = libc::fork();
             assert!(pid >= 0, "fork failed");
             if pid == 0 {
+                // die with the parent (its watchdog may give up on a run that hangs)
+                libc::prctl(libc::PR_SET_PDEATHSIG, libc::SIGKILL);
                 libc::close(fds[0]);
                 let mut acc = init(c);
                 // SAFETY: slot c+1 of the shared page (nproc <= 256 < 512 slots)
